@@ -468,6 +468,23 @@ class Interp:
                 return None
         return False
 
+    def _is_logger(self, t) -> bool:
+        """t denotes a logging.Logger (created by logging.getLogger, possibly held in a module global)."""
+        if not isinstance(t, tuple) or not t:
+            return False
+        if t[0] == "logger":
+            return True
+        if t[0] == "call" and t[1] in ("logging.getLogger", "logging.Logger"):
+            return True
+        if t[0] == "global" and len(t) > 2:
+            m = self.facts.modules.get(t[1])
+            v = m.globals.get(t[2]) if m else None
+            if isinstance(v, ast.Call):
+                fn = v.func
+                nm = fn.attr if isinstance(fn, ast.Attribute) else (fn.id if isinstance(fn, ast.Name) else "")
+                return nm in ("getLogger", "Logger")
+        return False
+
     def _concrete_leaves(self, t) -> bool:
         """Every alternative of a decision term is a heap object or a constant (so attribute access can be decided per leaf)."""
         if t[0] == "cond":
@@ -1072,14 +1089,20 @@ class Interp:
         comp = n.args[0]
         g = comp.generators[0]
         probe: list = []
-        it = self.ev(st.fork(), g.iter, probe)
+        pst = st.fork()
+        it = self.ev(pst, g.iter, probe)
+        if isinstance(self.obj(it), HGen) and self.obj(it).fi is not None and self.obj(it).qualname not in self.no_fuse:
+            it = self.force(it, pst, probe, n)          # a generator of a fixed, small number of elements reads like a table
         if not self._effect_free(probe):
             return None
         elems = self._unroll_elems(it)
         if elems is None or not (0 < len(elems) <= 16):
             return None
         is_or = n.func.id == "any"
-        self.ev(st, g.iter, tree)
+        it2 = self.ev(st, g.iter, tree)
+        if isinstance(self.obj(it2), HGen) and self.obj(it2).fi is not None and self.obj(it2).qualname not in self.no_fuse:
+            it2 = self.force(it2, st, tree, n)
+            elems = self._unroll_elems(it2) or elems
         vals = []
         cur = None
         for el in elems:
@@ -1295,7 +1318,50 @@ class Interp:
             return ("idx", lid)
         return tuple(Interp._subst_loop(x, l0, lid) for x in t)
 
+    def _comp_as_loop(self, st, n, tree, kind):
+        """``[f(x) for x in xs]`` where evaluating f(x) stores attributes of an object the function holds (a tracker whose
+        method both updates and returns its state): the loop ``out = []; for x in xs: out.append(f(x))``, whose carried
+        state the loop summary tracks - a comprehension is summarised without any."""
+        gens = n.generators
+        if kind not in ("list", "gen") or len(gens) != 1 or gens[0].is_async:
+            return None
+        names = {x.id for x in ast.walk(n.elt) if isinstance(x, ast.Name)} | {x.id for c in gens[0].ifs for x in ast.walk(c) if isinstance(x, ast.Name)}
+        holders = [nm for nm in names if isinstance(self.obj(st.env.get(nm, NONE)), HInst)]
+        if not holders:
+            return None
+        stored = self._stored_attrs([ast.Expr(value=n.elt)] + [ast.Expr(value=c) for c in gens[0].ifs])
+        written = set()
+        for nm in holders:
+            o = self.obj(st.env[nm])
+            written |= {a for a in stored if a in self._instance_written(o.cls)}
+        if not written:
+            return None
+        k = next(self._loop)
+        rn = f"__comp{k}_out"
+        app = ast.Expr(value=ast.Call(func=ast.Attribute(value=ast.Name(id=rn, ctx=ast.Load()), attr="append", ctx=ast.Load()), args=[n.elt], keywords=[]))
+        body = [app]
+        for c in reversed(gens[0].ifs):
+            body = [ast.If(test=c, body=body, orelse=[])]
+        loop = ast.For(target=gens[0].target, iter=gens[0].iter, body=body, orelse=[])
+        ast.copy_location(loop, n)
+        ast.fix_missing_locations(loop)
+        saved = {x.id: st.env.get(x.id) for x in ast.walk(gens[0].target) if isinstance(x, ast.Name)}
+        st.env[rn] = self.new_list([], n, tree)
+        out = self.st_For(loop, st, tree)
+        live = out.live if out is not None else None
+        if live is not None and live is not st:
+            st.env, st.ext = live.env, live.ext
+        for nm, v in saved.items():
+            if v is None:
+                st.env.pop(nm, None)
+            else:
+                st.env[nm] = v
+        return st.env.pop(rn)
+
     def _comp(self, st, n, tree, kind):
+        r0 = self._comp_as_loop(st, n, tree, kind)
+        if r0 is not None:
+            return r0
         gens = n.generators
         if kind in ("list", "gen") and len(gens) == 1 and isinstance(gens[0].iter, ast.Call) and isinstance(gens[0].iter.func, ast.Name) \
                 and gens[0].iter.func.id == "zip" and len(gens[0].iter.args) == 2 and not gens[0].is_async:
@@ -1340,6 +1406,36 @@ class Interp:
                 f = st.fork()
                 self.bind_target(f, g.target, el)
                 entries.append((self.ev(f, n.key, tree), self.ev(f, n.value, tree)))
+            if all(is_const(k_) for k_, _ in entries):
+                return ("dictlit", self.new_dict(entries, n, tree))
+        if kind == "dict" and len(gens) == 1 and len(g.ifs) == 1 and isinstance(n.value, ast.Name) and isinstance(n.key, ast.Name) \
+                and isinstance(g.target, ast.Tuple) and len(g.target.elts) == 2 and all(isinstance(e_, ast.Name) for e_ in g.target.elts) \
+                and g.target.elts[0].id == n.key.id and g.target.elts[1].id == n.value.id \
+                and isinstance(g.ifs[0], ast.Compare) and len(g.ifs[0].ops) == 1 and isinstance(g.ifs[0].ops[0], ast.IsNot) \
+                and isinstance(g.ifs[0].left, ast.Name) and g.ifs[0].left.id == n.value.id \
+                and isinstance(g.ifs[0].comparators[0], ast.Constant) and g.ifs[0].comparators[0].value is None \
+                and it[0] == "call" and it[1] == ".items" and len(it[2]) == 1 and isinstance(self.obj(it[2][0]), HDict):
+            if self._dict_mutated(it[2][0], tree):
+                # entries were also stored after the display (``d[k] = v`` under conditions): the filtered copy is "all of d's
+                # final entries, each present only when its value is not None" - queries read it through d's history
+                r_ = self.new_dict([("**", it[2][0])], n, tree)
+                self.obj(r_).dropnone_all = True
+                return ("dictlit", r_)
+            # ``{k: v for k, v in d.items() if v is not None}``: d's own entries (whatever their keys), each present only
+            # when its value is not None
+            d0 = self.obj(it[2][0])
+            return ("dictlit", self.new_dict([(e[0], e[1]) if e[0] == "**" else (e[0], ("dropnone", e[1])) for e in d0.entries], n, tree))
+        if kind == "dict" and elems is not None and len(elems) <= 64 and len(gens) == 1 and len(g.ifs) == 1 and isinstance(n.value, ast.Name) \
+                and isinstance(g.ifs[0], ast.Compare) and len(g.ifs[0].ops) == 1 and isinstance(g.ifs[0].ops[0], ast.IsNot) \
+                and isinstance(g.ifs[0].left, ast.Name) and g.ifs[0].left.id == n.value.id \
+                and isinstance(g.ifs[0].comparators[0], ast.Constant) and g.ifs[0].comparators[0].value is None:
+            # ``{k: v for k, v in d.items() if v is not None}`` over a dictionary of known keys: the same entries, each
+            # present only when its value is not None
+            entries = []
+            for el in elems:
+                f = st.fork()
+                self.bind_target(f, g.target, el)
+                entries.append((self.ev(f, n.key, tree), ("dropnone", self.ev(f, n.value, tree))))
             if all(is_const(k_) for k_, _ in entries):
                 return ("dictlit", self.new_dict(entries, n, tree))
         if kind != "dict" and elems is not None and 0 < len(elems) <= 16 and not getattr(self.obj(it), "dirty", False):
@@ -1567,10 +1663,16 @@ class Interp:
                 return self.new_list([], n, tree)
             if nm == "collections.defaultdict":
                 return self.new_dict([], n, tree)
+            if nm.startswith(("logging.", "warnings.")) and nm not in ("logging.getLogger", "logging.Logger"):
+                return NONE             # diagnostics: no effect on what the library computes
+            if nm in ("logging.getLogger", "logging.Logger"):
+                return ("logger",)
             tree.append(("extcall", nm, tuple(args), line))
             return ("call", nm, tuple(args), tuple(sorted(kwargs.items())))
         if k == "attr":
             recv, name = f[1], f[2]
+            if self._is_logger(recv):
+                return NONE             # diagnostics: no effect on what the library computes
             args = self.force_args(st, args, tree, n)
             o = self.obj(recv)
             if name in self.REGEX_METHODS:
@@ -2049,6 +2151,10 @@ class Interp:
                             def h(st, args, n, tree, pidx=pidx):
                                 d = args[pidx] if pidx < len(args) else ("opaque", "?")
                                 o = self.obj(d)
+                                if isinstance(o, HDict) and self._dict_mutated(d, tree):
+                                    r_ = self.new_dict([("**", d)], n, tree)
+                                    self.obj(r_).dropnone_all = True
+                                    return r_
                                 if isinstance(o, HDict):
                                     return self.new_dict([(e[0], e[1]) if e[0] == "**" else (e[0], ("dropnone", e[1])) for e in o.entries], n, tree)
                                 return ("call", "reject_nones", (d,), ())
@@ -2073,6 +2179,10 @@ class Interp:
                     def h2(st, args, n, tree, pidx=pidx):
                         d = args[pidx] if pidx < len(args) else ("opaque", "?")
                         o = self.obj(d)
+                        if isinstance(o, HDict) and self._dict_mutated(d, tree):
+                            r_ = self.new_dict([("**", d)], n, tree)
+                            self.obj(r_).dropnone_all = True
+                            return r_
                         if isinstance(o, HDict):
                             return self.new_dict([(e[0], e[1]) if e[0] == "**" else (e[0], ("dropnone", e[1])) for e in o.entries], n, tree)
                         return ("call", "reject_nones", (d,), ())
